@@ -549,7 +549,7 @@ def gen_hcase(rng, mode=None):
     return c
 
 
-def boundary_hcases():
+def boundary_hcases(full=True):
     out = []
     base = dict(kind='h', maxtasks=None, inqfd=7, pid=77, ospid=4242, maxmem=None, counter=None)
     for mode, synfd in (('plain', None), ('linked', 9), ('dropped', 9), ('linked', 0)):
@@ -571,7 +571,7 @@ def boundary_hcases():
                 for cancel, raises, late in itertools.product((0, 1), (0, 1), (0, 1, 2)):
                     if (raises or late == 2) and not accept_cb:
                         continue
-                    for pos, njobs in ((0, 2), (1, 3)):
+                    for pos, njobs in (((0, 2), (1, 3)) if full or (send_ack and accept_cb) else ((0, 2),)):
                         c = dict(base, mode=mode, synfd=synfd, send_ack=send_ack, accept_cb=accept_cb, callback=True,
                                  error_cb=True)
                         c['ins'] = [['msg', 2, 20 + n, None, 200 + n, ['ret', n], [['timeout']] * (n % 2) if synfd else [],
@@ -718,7 +718,7 @@ def correspond(res, n):
     rng = random.Random(res.seed * 65537 + 303)
     corpus = json.load(open(core.VERIF + '/corpus/C03.json'))
     full = res.tier != 'quick'
-    wcases = [c for c in corpus if c['kind'] in ('w', 'h')] + boundary_wcases(full) + boundary_hcases() \
+    wcases = [c for c in corpus if c['kind'] in ('w', 'h')] + boundary_wcases(full) + boundary_hcases(full) \
         + [gen_wcase(rng) for _ in range(n)] + [gen_hcase(rng) for _ in range(max(60, n // 3))]
     wouts = core.run_driver('worker_driver.py', wcases, timeout=1200)
     # the property judged directly on the real traces
